@@ -1,4 +1,4 @@
-HOOK_COMMITS = ["bc07554"]
+HOOK_COMMITS = ["bc07554", "1cc2f17", "da9c99f", "7f9585e"]
 
 SEQ_NOTE = ("Trusts: Lean kernel; the byte-exact correspondence run of the physical model (Sth/Model/Store.lean, GC.lean) against the "
             "real store (every output, decoded pools and bucket table after every mutation, every file after every flush/GC/close); the "
@@ -74,4 +74,18 @@ META["C15"] = dict(
          "mismatching blocks, and checked against the blockstore contract. The adapter corollaries of C01 are not yet stated as theorems; "
          "proved core: record-list theorems.",
     note=SEQ_NOTE + " The hash function is a parameter (real Sum's verdict is trace input).",
+)
+
+META["C03"] = dict(
+    engine="lean+harness(crash)",
+    design_ref="DESIGN.md section 5, C03",
+    technique="Lean 4 model of recovery (Open: snapshot/rescan with tail truncation, freelist repair) checked against real recoveries of captured and torn crash images; crash-safety specification evaluated on every real recovery",
+    text="Crash images are captured by hook points between file-system steps of Flush, Close, Open and both GCs on the real code; torn "
+         "variants are every byte prefix of each appended region. Each image is recovered by the real code (open, read all, follow-up "
+         "workload with GC, rescan) and by the Lean model from the same bytes; the crash-safety clause (flushed value or a later "
+         "acknowledged one, never an error, behaviour preserved afterwards) is evaluated on the real outcome. The crash theorem itself "
+         "(C03_crash_safe_partial over fsSteps prefixes) is not yet proved: proved core = record-list theorems; known findings D11, D12 "
+         "are excluded by decidable recognisers on the image/history.",
+    note=SEQ_NOTE + " Process-crash semantics: bytes reach files in order; rename/unlink/truncate/4-byte pwrite atomic. Hook completeness "
+         "(every FS step lies between two points) is by construction of the hook commit, not yet audited with strace.",
 )
